@@ -154,6 +154,13 @@ fn main() {
             let runs = geti(&m, "runs", 10);
             let start = geti(&m, "start", 0);
             let mut tr = Trace::create(&out);
+            if let Some(mp) = m.get("mutants") {
+                progress(&progress_path, &format!("{}", start));
+                codec::run_mutants(&mut tr, mp, start, runs);
+                progress(&progress_path, "done");
+                eprintln!("codec: mutants from line {} lines={}", start, tr.lines);
+                return;
+            }
             for i in start..start + runs {
                 progress(&progress_path, &format!("{}", i));
                 codec::run_codec(&mut tr, i, mix(seed ^ 0xC0DEC, i), m.get("vectors").map(|s| s.as_str()));
